@@ -857,7 +857,8 @@ func (tf *transformer) transformCompile(args []string) ([]string, error) {
 			newPaths = append(newPaths, path)
 		}
 		if flagDebugDir != "" {
-			debugArtifacts.GarbledFiles[basename] = src
+			// printFile returns a buffer which it reuses on its next call.
+			debugArtifacts.GarbledFiles[basename] = bytes.Clone(src)
 		}
 	}
 	if tf.curPkg.ImportPath == "runtime" && flagTiny {
